@@ -386,3 +386,179 @@ Proof.
   cbn [map]. rewrite join_concat. unfold stream. rewrite app_nil_r. f_equal.
   now rewrite map_map.
 Qed.
+
+(* ------------------------------------------------------------------------------------------ *)
+(* _parse_index_string on a printed index list *)
+
+Definition parse_axis (p : str) : option str :=
+  let i := strip p in if str_eqb i (s ":") then None else Some i.
+
+Lemma parse_axis_print ax : valid_axis ax = true ->
+  parse_axis (axis_str ax) = ax /\ parse_axis (" "%char :: axis_str ax) = ax.
+Proof.
+  intros H. unfold parse_axis. rewrite strip_blank.
+  destruct ax as [i|]; cbn [axis_str valid_axis] in *; [|split; reflexivity].
+  rewrite strip_nospace
+    by (apply (forallb_impl is_word nospace _ word_nospace'); now apply ident_words).
+  change (s ":") with [":"%char]. rewrite (ident_not_colon i H). split; reflexivity.
+Qed.
+
+Lemma map_id_in {A} (f : A -> A) l : (forall x, In x l -> f x = x) -> map f l = l.
+Proof.
+  induction l as [|x l IH]; intros H; [reflexivity|]. cbn [map].
+  rewrite (H x (or_introl eq_refl)), IH; [reflexivity|]. intros; apply H; now right.
+Qed.
+
+Lemma parse_index_string_body a : good a = true -> parse_index_string (body_of a) = axes a.
+Proof.
+  unfold good, wf_aspec, body_of. intros H. apply andb_true_iff in H as [H Hr].
+  apply andb_true_iff in H as [_ Hax].
+  destruct (axes a) as [|ax l]; [discriminate|]. clear Hr.
+  unfold parse_index_string. fold parse_axis. cbn [map].
+  rewrite split_char_join.
+  2:{ intros y Hy. change (axis_str ax :: map axis_str l) with (map axis_str (ax :: l)) in Hy.
+      apply in_map_iff in Hy as [z [<- Hz]]. apply axis_str_chars; [exact word_nocomma|reflexivity|].
+      rewrite forallb_forall in Hax. now apply Hax. }
+  cbn [forallb] in Hax. apply andb_true_iff in Hax as [Hax Hl].
+  cbn [map]. rewrite (proj1 (parse_axis_print ax Hax)). f_equal.
+  rewrite !map_map. apply map_id_in. intros x Hx. rewrite forallb_forall in Hl.
+  exact (proj2 (parse_axis_print x (Hl x Hx))).
+Qed.
+
+Lemma mapM_tok l : forallb good l = true ->
+  mapM (fun nb => mk_aspec (fst nb) (parse_index_string (snd nb))) (map tok l) = Ok l.
+Proof.
+  induction l as [|a l IH]; intros H; [reflexivity|]. cbn [forallb] in H.
+  apply andb_true_iff in H as [Ha Hl]. cbn [map mapM]. change (tok a) with (aname a, body_of a). cbn [fst snd].
+  rewrite (parse_index_string_body a Ha). unfold mk_aspec at 1.
+  pose proof Ha as Hw. unfold good in Hw. apply andb_true_iff in Hw as [Hw _]. unfold wf_aspec in Hw.
+  rewrite Hw. cbn [bind]. rewrite (IH Hl). cbn [bind]. now destruct a.
+Qed.
+
+(* ------------------------------------------------------------------------------------------ *)
+(* _parse_indexed_arrays on one printed side *)
+
+Lemma print_aspec_brackets a :
+  mem_char "["%char (print_aspec a) = true /\ mem_char "]"%char (print_aspec a) = true.
+Proof.
+  rewrite print_aspec_eq. split.
+  - rewrite mem_char_app. cbn [mem_char]. rewrite Ascii.eqb_refl. cbn [orb]. apply orb_true_r.
+  - rewrite mem_char_app. cbn [mem_char]. rewrite mem_char_app. cbn [mem_char].
+    rewrite Ascii.eqb_refl. cbn [orb]. now rewrite !orb_true_r.
+Qed.
+
+Lemma stream_tail pre l tail : stream pre l [] ++ tail = stream pre l tail.
+Proof. unfold stream. now rewrite app_nil_r. Qed.
+
+Lemma parse_arrays_ok pre0 tail a l :
+  forallb nonword pre0 = true -> forallb nonword tail = true -> forallb good (a :: l) = true ->
+  parse_indexed_arrays (pre0 ++ join [","%char; " "%char] (map print_aspec (a :: l)) ++ tail) = Ok (a :: l).
+Proof.
+  intros Hpre Htail Hl. rewrite join_print_stream, <- app_assoc, stream_tail.
+  set (st := stream [","%char; " "%char] l tail).
+  assert (forall c, mem_char c (print_aspec a) = true -> mem_char c (pre0 ++ print_aspec a ++ st) = true) as Hmem.
+  { intros c Hc. now rewrite !mem_char_app, Hc, orb_true_r. }
+  destruct (print_aspec_brackets a) as [Hlb Hrb].
+  unfold parse_indexed_arrays.
+  destruct (str_eqb (strip (pre0 ++ print_aspec a ++ st)) (s "...")) eqn:E.
+  { exfalso. apply str_eqb_eq in E.
+    pose proof (mem_char_strip "["%char (pre0 ++ print_aspec a ++ st) eq_refl) as Hs.
+    rewrite E, (Hmem _ Hlb) in Hs. discriminate Hs. }
+  rewrite (Hmem _ Hlb), (Hmem _ Hrb). cbn [negb orb].
+  cbn [forallb] in Hl. pose proof Hl as Hl'. apply andb_true_iff in Hl' as [Ha Hl'].
+  replace (findall (S (length (pre0 ++ print_aspec a ++ st))) (pre0 ++ print_aspec a ++ st))
+    with (map tok (a :: l)); [now apply mapM_tok|].
+  symmetry. rewrite app_length.
+  replace (S (length pre0 + length (print_aspec a ++ st)))
+    with (length pre0 + S (length (print_aspec a ++ st))) by lia.
+  rewrite (findall_skip _ _ _ Hpre). cbn [findall]. rewrite (try_match_aspec a _ Ha).
+  destruct (print_aspec a ++ st) eqn:Ep.
+  { apply app_eq_nil in Ep as [Ep _]. now apply print_aspec_nonempty in Ep. }
+  rewrite <- Ep. cbn [map]. f_equal. apply findall_stream; auto.
+  rewrite app_length. pose proof (print_aspec_nonempty a) as Hne.
+  destruct (print_aspec a); [congruence|]. cbn [length]. subst st. lia.
+Qed.
+
+Lemma parse_arrays_dots : parse_indexed_arrays (s "..." ++ [" "%char]) = Ok [].
+Proof. reflexivity. Qed.
+
+(* ------------------------------------------------------------------------------------------ *)
+(* the printed alphabet has no '-' *)
+
+Lemma print_aspec_chars (p : ascii -> bool) a :
+  (forall c, is_word c = true -> p c = true) ->
+  p "."%char = true -> p ":"%char = true -> p ","%char = true -> p " "%char = true ->
+  p "["%char = true -> p "]"%char = true ->
+  wf_aspec a = true -> forallb p (print_aspec a) = true.
+Proof.
+  intros Hw Hd Hc Hcm Hsp Hl Hr H. unfold wf_aspec in H. apply andb_true_iff in H as [Hn Hax].
+  rewrite print_aspec_eq. rewrite forallb_app. cbn [forallb]. rewrite forallb_app. cbn [forallb].
+  rewrite (valid_name_chars p _ Hw Hd Hn), (body_chars p a Hw Hc Hcm Hsp Hax), Hl, Hr. reflexivity.
+Qed.
+
+Lemma print_list_nodash l : forallb wf_aspec l = true ->
+  forallb nodash (join [","%char; " "%char] (map print_aspec l)) = true.
+Proof.
+  intros H. apply forallb_join; [reflexivity|]. intros x Hx.
+  apply in_map_iff in Hx as [a [<- Ha]]. rewrite forallb_forall in H.
+  apply print_aspec_chars; try reflexivity; [exact word_nodash | now apply H].
+Qed.
+
+Lemma forallb_andb {A} (p q : A -> bool) l :
+  forallb (fun a => p a && q a) l = forallb p l && forallb q l.
+Proof.
+  induction l as [|x l IH]; [reflexivity|]. cbn [forallb]. rewrite IH.
+  destruct (p x), (q x), (forallb p l); reflexivity.
+Qed.
+
+(* ------------------------------------------------------------------------------------------ *)
+(* MapSpec.from_string (str (m)) = m *)
+
+Theorem parse_print m : wf_decl m = true -> printable m = true -> parse (print m) = Ok m.
+Proof.
+  intros Hwf Hpr.
+  pose proof Hwf as Hwf'. unfold wf_decl in Hwf'. apply andb_true_iff in Hwf' as [Hwf' Hrest].
+  apply andb_true_iff in Hwf' as [Hwi Hwo].
+  unfold printable in Hpr. rewrite forallb_app in Hpr. apply andb_true_iff in Hpr as [Hpi Hpo].
+  assert (forallb good (ins m) = true) as Hgi by (unfold good; now rewrite forallb_andb, Hwi, Hpi).
+  assert (forallb good (outs m) = true) as Hgo by (unfold good; now rewrite forallb_andb, Hwo, Hpo).
+  destruct (outs m) as [|o0 orest] eqn:Eo; [discriminate|]. clear Hrest.
+  set (L := match ins m with [] => s "..." | l => join (s ", ") (map print_aspec l) end).
+  set (R := join [","%char; " "%char] (map print_aspec (o0 :: orest))).
+  assert (print m = (L ++ [" "%char]) ++ "-"%char :: ">"%char :: " "%char :: R) as Ep.
+  { unfold print. fold L. rewrite Eo. fold R. now rewrite <- app_assoc. }
+  assert (forallb nodash L = true) as HL.
+  { unfold L. destruct (ins m) as [|a l]; [reflexivity|]. now apply print_list_nodash. }
+  assert (forallb nodash R = true) as HR by (now apply print_list_nodash).
+  unfold parse. rewrite Ep, split_arrow_app by (now rewrite forallb_app, HL).
+  rewrite split_arrow_nodash by (cbn [forallb]; now rewrite HR).
+  assert (parse_indexed_arrays (L ++ [" "%char]) = Ok (ins m)) as ->.
+  { unfold L. destruct (ins m) as [|a l]; [reflexivity|].
+    exact (parse_arrays_ok [] [" "%char] a l eq_refl eq_refl Hgi). }
+  cbn [bind].
+  assert (parse_indexed_arrays (" "%char :: R) = Ok (o0 :: orest)) as ->.
+  { pose proof (parse_arrays_ok [" "%char] [] o0 orest eq_refl eq_refl Hgo) as H.
+    rewrite app_nil_r in H. exact H. }
+  cbn [bind]. rewrite mk_mapspec_wf by assumption.
+  assert ({| ins := ins m; outs := o0 :: orest |} = m) as -> by (rewrite <- Eo; now destruct m).
+  now rewrite Hwf.
+Qed.
+
+(* consequence: the notation is unambiguous on well-formed printable specs *)
+Corollary print_injective m1 m2 :
+  wf_decl m1 = true -> printable m1 = true -> wf_decl m2 = true -> printable m2 = true ->
+  print m1 = print m2 -> m1 = m2.
+Proof.
+  intros W1 P1 W2 P2 E. pose proof (parse_print m1 W1 P1) as H1. pose proof (parse_print m2 W2 P2) as H2.
+  rewrite E, H2 in H1. now injection H1.
+Qed.
+
+(* non-trivial instances: a reduction + scoped name, and a spec without inputs ("...") *)
+Example parse_print_instance :
+  let A n ax := {| aname := n; axes := ax |} in
+  let m := {| ins := [A (s "a") [Some (s "i"); None]; A (s "b.c") [Some (s "j")]];
+              outs := [A (s "q") [Some (s "i"); Some (s "j")]] |} in
+  let m0 := {| ins := []; outs := [A (s "q") [Some (s "i")]] |} in
+  wf_decl m = true /\ printable m = true /\ print m = s "a[i, :], b.c[j] -> q[i, j]"
+  /\ wf_decl m0 = true /\ printable m0 = true /\ print m0 = s "... -> q[i]".
+Proof. vm_compute. repeat split. Qed.
